@@ -255,5 +255,20 @@ func runProg(c *Case) Verdict {
 		text = c.Text
 	}
 	obs := runProgramText(forms, text, globals, timeout)
-	return judgeProg(c, obs)
+	v := judgeProg(c, obs)
+	if v.Verdict == "ok" && c.Opt["alsotext"] == "1" && text == "" {
+		// the same program once more, printed and READ back: its forms now carry positions (a form built
+		// from JSON has none, and what the evaluator does with generated code depends on them)
+		printed := ""
+		for _, f := range forms {
+			printed += lisp.PRINT(ToMal(f)) + "\n"
+		}
+		v2 := judgeProg(c, runProgramText(nil, printed, globals, timeout))
+		if v2.Verdict == "mismatch" || v2.Verdict == "panic" || v2.Verdict == "hang" {
+			v2.Key += ":text-route"
+			v2.Note += " (program printed and read back; the same forms built directly behave as defined)"
+			return v2
+		}
+	}
+	return v
 }
